@@ -1,4 +1,5 @@
 import TcheranVerif.Proofs.MagicCert
+import TcheranVerif.Proofs.Sweep.S19  -- only to bound how many parts are checked at once (≈8 GB each)
 /-! C07 sweep, part 23: rook squares [45, 46, 49, 50] — decided by the kernel alone -/
 namespace Tcheran.Sweep
 
